@@ -3,8 +3,11 @@ open Util
 open NgModel
 open Ngshared
 
-let run (id : string) (ops : string list) (out : out_channel) =
-  let raw = ref [] and rawhex = ref "" and ro = ref "000" and zc = ref false in
+type c15case = { raw : BinNums.coq_Z list; ro : string; zc : bool; sizes : int list; fail : int;
+                 gz : bool; gzcut : bool; nomodel : bool }
+
+let parse (ops : string list) : c15case =
+  let rawhex = ref "" and ro = ref "000" and zc = ref false in
   let sizes = ref [] and fail = ref (-1) and gz = ref false and gzcut = ref false and nomodel = ref false in
   Stdlib.List.iter (fun op ->
     let name, arg = match String.index_opt op ':' with
@@ -24,34 +27,51 @@ let run (id : string) (ops : string list) (out : out_channel) =
     | "cmpmodes" -> ()
     | "tag" -> ()
     | _ -> failwith ("c15ng op: " ^ op)) ops;
+  { raw = (if !nomodel || !gzcut then [] else bytes_of_hex !rawhex); ro = !ro; zc = !zc; sizes = !sizes; fail = !fail;
+    gz = !gz; gzcut = !gzcut; nomodel = !nomodel }
+
+(* the events the underlying reader produces; None = read the flat byte string *)
+let events (c : c15case) : event list option =
+  if c.gz || (c.sizes = [] && c.fail < 0) then None
+  else begin
+    let n = Stdlib.List.length c.raw in
+    let limit = if c.fail >= 0 && c.fail < n then c.fail else n in
+    let data = take limit c.raw in
+    let szs = if c.sizes = [] then [max limit 1] else Stdlib.List.map (fun s -> max s 1) c.sizes in
+    let arr = Array.of_list szs in
+    let rec chunks d k acc =
+      if d = [] then Stdlib.List.rev acc
+      else begin
+        let s = arr.(k mod Array.length arr) in
+        let ch = take s d in
+        let rec drop j l = if j <= 0 then l else match l with [] -> [] | _ :: t -> drop (j - 1) t in
+        chunks (drop s d) (k + 1) (Chunk ch :: acc)
+      end in
+    Some (chunks data 0 [] @ (if c.fail >= 0 then [Fail] else []))
+  end
+
+let run (id : string) (ops : string list) (out : out_channel) =
+  let c = parse ops in
   let step = ref 0 in
   let emit s = Printf.fprintf out "%s\t%d\t%s\n" id !step s; incr step in
-  if not (!nomodel || !gzcut) then raw := bytes_of_hex !rawhex;
-  if !nomodel then emit "nomodel"
-  else if !gzcut then emit "gzcut"
+  if c.nomodel then emit "nomodel"
+  else if c.gzcut then emit "gzcut"
   else begin
-    let ropt = parse_ro !ro !zc in
-    let n = Stdlib.List.length !raw in
-    let res =
-      if !gz || (!sizes = [] && !fail < 0) then sres_of (fst (session_flat ropt !raw false))
-      else begin
-        (* the events the underlying reader produces *)
-        let limit = if !fail >= 0 && !fail < n then !fail else n in
-        let data = take limit !raw in
-        let szs = if !sizes = [] then [max limit 1] else Stdlib.List.map (fun s -> max s 1) !sizes in
-        let arr = Array.of_list szs in
-        let rec chunks d k acc =
-          if d = [] then Stdlib.List.rev acc
-          else begin
-            let s = arr.(k mod Array.length arr) in
-            let c = take s d in
-            let rec drop j l = if j <= 0 then l else match l with [] -> [] | _ :: t -> drop (j - 1) t in
-            chunks (drop s d) (k + 1) (Chunk c :: acc)
-          end in
-        let ev = chunks data 0 [] @ (if !fail >= 0 then [Fail] else []) in
-        sres_of (fst (session_chunked ropt ev))
-      end in
+    let ropt = parse_ro c.ro c.zc in
+    let res = match events c with
+      | None -> sres_of (fst (session_flat ropt c.raw false))
+      | Some ev -> sres_of (fst (session_chunked ropt ev)) in
     Stdlib.List.iter emit (session_lines res)
   end
 
 let registered = Registry.register "C15ng" run
+
+let to_coq (idx : int) (ops : string list) (out : out_channel) =
+  let c = parse ops in
+  if not (c.nomodel || c.gzcut) && Stdlib.List.length c.raw <= 600 then begin
+    let ropt = parse_ro c.ro c.zc in
+    match events c with
+    | None -> ng_coq_flat out (Printf.sprintf "sample_%d" idx) ropt c.raw
+    | Some ev -> ng_coq_chunked out (Printf.sprintf "sample_%d" idx) ropt ev
+  end
+let registered_coq = Registry.register_coq "C15ng" (ng_coq_header, to_coq)
